@@ -377,6 +377,14 @@ impl Default for RawKnobs {
     }
 }
 
+/// How many irregularities of each kind [`make_raw`] actually injected.
+#[derive(Default, Clone, Debug)]
+pub struct RawStats {
+    pub dangling: u64,
+    pub shared: u64,
+    pub dups: u64,
+}
+
 /// TIDs control may continue at inside the same function (targets, return sites, hints)
 pub fn intra_succ_tids(b: &Term<Blk>) -> Vec<Tid> {
     let mut v = Vec::new();
@@ -454,18 +462,24 @@ fn fresh_sub(n: &mut u64) -> Tid {
 
 /// Inject the irregularities of `raw` into a well-formed program.  Every single injection is
 /// undone if it would leave the input class ([`raw_in_class`]).
-pub fn make_raw(rng: &mut Rng, prog: &mut Term<Program>, raw: &RawKnobs) {
+pub fn make_raw(rng: &mut Rng, prog: &mut Term<Program>, raw: &RawKnobs) -> RawStats {
     let mut fresh = 0u64;
+    let mut stats = RawStats::default();
     let keys: Vec<Tid> = prog.term.subs.keys().cloned().collect();
     // positions
     let blocks_of = |p: &Program| -> Vec<(Tid, usize)> {
         p.subs.values().flat_map(|s| (0..s.term.blocks.len()).map(move |b| (s.tid.clone(), b))).collect()
     };
-    let try_apply = |prog: &mut Term<Program>, f: &mut dyn FnMut(&mut Program)| {
+    let try_apply = |prog: &mut Term<Program>, f: &mut dyn FnMut(&mut Program)| -> u64 {
         let backup = prog.term.clone();
         f(&mut prog.term);
         if !raw_in_class(&prog.term) {
             prog.term = backup;
+            0
+        } else if prog.term != backup {
+            1
+        } else {
+            0
         }
     };
     // ---- shared blocks --------------------------------------------------------------------
@@ -483,7 +497,7 @@ pub fn make_raw(rng: &mut Rng, prog: &mut Term<Program>, raw: &RawKnobs) {
         let blk = prog.term.subs[&a].term.blocks[b].clone();
         let len = prog.term.subs[&host].term.blocks.len();
         let pos = 1 + rng.below(len as u64) as usize;
-        try_apply(prog, &mut |p: &mut Program| p.subs.get_mut(&host).unwrap().term.blocks.insert(pos, blk.clone()));
+        stats.shared += try_apply(prog, &mut |p: &mut Program| p.subs.get_mut(&host).unwrap().term.blocks.insert(pos, blk.clone()));
     }
     for _ in 0..rng.below(raw.shared_reached + 1) {
         let cands: Vec<(Tid, usize)> = blocks_of(&prog.term).into_iter().filter(|(_, b)| *b >= 1).collect();
@@ -498,7 +512,7 @@ pub fn make_raw(rng: &mut Rng, prog: &mut Term<Program>, raw: &RawKnobs) {
         }
         let t = prog.term.subs[&a].term.blocks[b].tid.clone();
         let which = rng.below(8);
-        try_apply(prog, &mut |p: &mut Program| {
+        stats.shared += try_apply(prog, &mut |p: &mut Program| {
             let blk = &mut p.subs.get_mut(&fs).unwrap().term.blocks[fb];
             let mut done = false;
             let n = blk.term.jmps.len();
@@ -535,7 +549,7 @@ pub fn make_raw(rng: &mut Rng, prog: &mut Term<Program>, raw: &RawKnobs) {
             continue;
         }
         let t = prog.term.subs[&a].term.blocks[b].tid.clone();
-        try_apply(prog, &mut |p: &mut Program| p.subs.get_mut(&c).unwrap().term.blocks[d].tid = t.clone());
+        stats.dups += try_apply(prog, &mut |p: &mut Program| p.subs.get_mut(&c).unwrap().term.blocks[d].tid = t.clone());
     }
     for _ in 0..rng.below(raw.dup_defs + 1) {
         let pos: Vec<(Tid, usize, usize)> = blocks_of(&prog.term)
@@ -552,6 +566,7 @@ pub fn make_raw(rng: &mut Rng, prog: &mut Term<Program>, raw: &RawKnobs) {
         }
         let t = prog.term.subs[&a].term.blocks[b].term.defs[d].tid.clone();
         prog.term.subs.get_mut(&a2).unwrap().term.blocks[b2].term.defs[d2].tid = t;
+        stats.dups += 1;
     }
     for _ in 0..rng.below(raw.dup_jmps + 1) {
         let pos: Vec<(Tid, usize, usize)> = blocks_of(&prog.term)
@@ -568,6 +583,7 @@ pub fn make_raw(rng: &mut Rng, prog: &mut Term<Program>, raw: &RawKnobs) {
         }
         let t = prog.term.subs[&a].term.blocks[b].term.jmps[d].tid.clone();
         prog.term.subs.get_mut(&a2).unwrap().term.blocks[b2].term.jmps[d2].tid = t;
+        stats.dups += 1;
     }
     // ---- dangling targets (fresh TIDs) ----------------------------------------------------
     let jmp_pos = |p: &Program| -> Vec<(Tid, usize, usize)> {
@@ -608,6 +624,7 @@ pub fn make_raw(rng: &mut Rng, prog: &mut Term<Program>, raw: &RawKnobs) {
                 | (2, Jmp::CallOther { return_: Some(x), .. }) => *x = fresh_blk(&mut fresh),
                 _ => (),
             }
+            stats.dangling += 1;
         }
     }
     for _ in 0..rng.below(raw.dangling_hints + 1) {
@@ -628,15 +645,20 @@ pub fn make_raw(rng: &mut Rng, prog: &mut Term<Program>, raw: &RawKnobs) {
             let i = rng.below(hints.len() as u64 + 1) as usize;
             hints.insert(i, f);
         }
+        stats.dangling += 1;
     }
     debug_assert!(raw_in_class(&prog.term));
+    stats
 }
 
 /// A raw program: a well-formed one with the irregularities of `raw` injected.
 pub fn gen_raw_program(rng: &mut Rng, k: &Knobs, raw: &RawKnobs) -> Term<Program> {
+    gen_raw_program_stats(rng, k, raw).0
+}
+pub fn gen_raw_program_stats(rng: &mut Rng, k: &Knobs, raw: &RawKnobs) -> (Term<Program>, RawStats) {
     let mut p = gen_program(rng, k);
-    make_raw(rng, &mut p, raw);
-    p
+    let st = make_raw(rng, &mut p, raw);
+    (p, st)
 }
 
 // ------------------------------------------------------------------------------------------------
